@@ -44,6 +44,25 @@ pub fn gen(tier: &str, seed: u64, emit: &mut dyn FnMut(String)) {
         match rng.below(5) { 0 => { let n = rng.below(5) as usize; let t = rng.bytes(n); b.extend(t); } 1 => { let k = rng.below(b.len() as u64 + 1) as usize; b.truncate(k); } _ => {} }
         emit(format!("PMT {}", hex(&b)));
     }
+    gen_streams(big, &mut rng, emit);
+}
+
+/// builder-made tables through the whole demultiplexer, in packetisations from "as much as fits" to "exactly the 8 header
+/// bytes in the first packet": what the PAT / PMT bodies say must come out as requests
+pub fn gen_streams(big: bool, rng: &mut Rng, emit: &mut dyn FnMut(String)) {
+    for _ in 0..(if big { 2000 } else { 150 }) {
+        let pids = crate::suites::streams::pick_pids(rng, 6);
+        let mut m = Mux::new();
+        let pat = section(0, 1, rng.below(32) as u8, true, &pat_body(&[(1, pids[0]), (0, pids[5])], rng));
+        let ns = rng.range(1, 4) as usize;
+        let ss: Vec<(u8, u16, Vec<u8>)> = (0..ns).map(|k| { let mut d = vec![]; for _ in 0..rng.below(3) { d.extend(rand_desc(rng)); } (rng.byte(), pids[1 + k], d) }).collect();
+        let mut pd = vec![]; for _ in 0..rng.below(3) { pd.extend(rand_desc(rng)); }
+        let pmt = section(2, 1, rng.below(32) as u8, true, &pmt_body(pids[1], &pd, &ss, rng));
+        m.psi(0, &pat, if rng.chance(1, 3) { rng.range(1, 20) as usize } else { 0 }, *rng.pick(&[0u64, 2, 2]), rng);
+        m.psi(pids[0], &pmt, if rng.chance(1, 3) { rng.range(1, 20) as usize } else { 0 }, *rng.pick(&[0u64, 1, 2, 2]), rng);
+        for p in pids.iter() { let pl = rng.bytes(184); m.data_packet(*p, false, &pl, rng); }
+        emit(crate::suites::streams::dmx_case(rng.below(2), "", &[m.bytes()]));
+    }
 }
 
 pub fn rand_desc(rng: &mut Rng) -> Vec<u8> {
